@@ -446,10 +446,12 @@ func (db *SingleBucketBackend) PutObject(
 		return result, err
 	}
 
-	// The metadata is written before the object is moved into place: if it
-	// cannot be stored (its flattened file name may be too long for the
-	// filesystem) the upload fails while the bucket is still untouched,
-	// instead of leaving an object behind that has no metadata.
+	// The metadata is staged before the object is moved into place and
+	// committed afterwards. If it cannot be stored at all (its flattened file
+	// name may be too long for the filesystem) the upload fails while the
+	// bucket is still untouched, and at no point, not even if the process is
+	// killed in between, is the old object paired with the new metadata or
+	// the other way round.
 	storedMeta := &Metadata{
 		File:    objectName,
 		Hash:    hasher.Sum(nil),
@@ -457,24 +459,29 @@ func (db *SingleBucketBackend) PutObject(
 		Size:    stat.Size(),
 		ModTime: stat.ModTime(),
 	}
-	rollbackMeta, err := db.metaStore.replaceMeta(db.metaStore.metaPath(bucketName, objectName), storedMeta)
-	if err != nil {
+	metaPath := db.metaStore.metaPath(bucketName, objectName)
+	if err := db.metaStore.stageMeta(metaPath, storedMeta); err != nil {
+		db.metaStore.discardStagedMeta(metaPath)
 		return result, err
 	}
 	verifhook.At("fs.put.before-rename")
 
 	if objectDir != "." {
 		if err := db.fs.MkdirAll(objectDir, 0777); err != nil {
-			rollbackMeta()
+			db.metaStore.discardStagedMeta(metaPath)
 			return result, err
 		}
 	}
 	if err := db.fs.Rename(tmpFilePath, objectFilePath); err != nil {
-		rollbackMeta()
+		db.metaStore.discardStagedMeta(metaPath)
 		removeEmptyDirs(db.fs, "", path.Dir(objectName))
 		return result, err
 	}
 	committed = true
+
+	if err := db.metaStore.commitMeta(metaPath); err != nil {
+		return result, err
+	}
 	verifhook.At("fs.put.after-rename")
 
 	return result, nil
